@@ -94,7 +94,10 @@ func (stat Status) dirStatusCounts(counts map[string]int) {
 		counts["directory"]++
 	}
 	for _, childStatus := range stat.ChildrenStatus {
-		if childStatus.IsDir {
+		// Only descend into a sub-directory that actually is a directory in the
+		// workspace; one that is missing or has been replaced by something else
+		// is reported like any other out-of-date entry.
+		if childStatus.IsDir && childStatus.WorkspaceFileStatus == fsutil.StatusDirectory {
 			childStatus.dirStatusCounts(counts)
 		} else {
 			counts[childStatus.String()]++
